@@ -8,7 +8,7 @@ from . import common
 from .common import Check
 from .c17_impl import (CODE_ERR, ERR_CODE, HOUR, MINUTE, HarnessBroken, Impl, Unsupported, blackbox_skip, cps, show_decl,
                        show_outcome)
-from .c17_session import Session, minimise, outcome_key as session_outcome_key
+from .c17_session import Session, minimise, outcome_key as session_outcome_key, unroll
 
 RULE = ("every single-character delete / duplicate / swap / insert corruption of 14 seed programs "
         "(insertions from the token alphabet), seeded random strings over the token alphabet plus "
@@ -25,6 +25,16 @@ RULE = ("every single-character delete / duplicate / swap / insert corruption of
         "over create / delete / bucket query / failing query, every 37th earlier text asked a second time, and inputs "
         "of 10 001 elements (list, arguments, statements, characters, dict entries, events in a bucket); what a wrong "
         "argument type / count is comes from the frozen registry corpus/c17_registry.json, not from the tree; "
+        "INTERLEAVINGS, FAULT PATHS, ENVIRONMENT, EDGE VALUES: two Datastore objects over ONE store (a shared MemoryStorage "
+        "object, two connections to one sqlite file, a second object over the long-used first store) creating and deleting "
+        "the bucket behind each other's back under every bucket-naming shape; part of the queries of every session on worker "
+        "threads that stay alive (a query that does not come back within the time limit is a failing input); runs of "
+        "hundreds of rejected queries whose error sits inside nested elements (parse, name, arity, type, bucket) followed by "
+        "texts of every class; the query period over the full datetime range (naive datetime.min / max, aware edges whose "
+        "UTC equivalent leaves year 1..9999, DST gap / fold, second-granular offsets, reversed) under texts of every class; "
+        "texts of every class under process-level settings a host may have made (logging at DEBUG with a formatting handler, "
+        "a lowered recursion limit, warnings as errors, other local time zones, other int-digit limits); string literals "
+        "with every line-boundary / white-space / format / normalisation-sensitive code point inside; "
         "non-trivial = distinct text that reaches a quote/bracket scanner or a call (contains one of "
         "( [ { \" ')")
 
@@ -180,6 +190,28 @@ def non_ascii_stream(rng, n):
         yield "RETURN=" + "".join(rng.choice(OPAQUE_NON_ASCII + list('()[]",1a ')) for _ in range(k))
 
 
+# Code points the query language gives no meaning inside a string literal, but some text routine does: the line
+# boundaries of str.splitlines (CR LF, CR, VT, FF, FS, GS, RS, NEL, LS, PS), white space of str.strip / split / \s
+# beyond the blank, zero-width and format characters, NUL / DEL, lone surrogates (no UTF-8 form), characters that
+# Unicode normalisation, case folding or an entity / percent decoder rewrite, runs of blanks and line breaks that a
+# white-space collapse would touch.  A literal contains them and evaluates to itself (value compared with the model).
+SPECIAL_CHARS = ["\r\n", "\r", "\x0b", "\x0c", "\x1c", "\x1d", "\x1e", "\x1f", "\x85", "\u2028", "\u2029", "\xa0", "\u2003",
+                 "\u3000", "\u200b", "\u200e", "\ufeff", "\x00", "\x7f", "\ud800", "\udfff", "e\u0301", "\ufb01", "\uff21",
+                 "\u00df", "\u0130", "\u212a", "  ", "\t", "\n\n", " \n ", "\n\r", "&lt", "&#65", "%41", "\U0001f600"]
+
+
+def special_stream():
+    """(quote, body, context): every special code point alone, between letters, doubled, first, last, after a
+    backslash - in the positions a literal can stand in, in rotation."""
+    k = 0
+    for q in QUOTES:
+        for c in SPECIAL_CHARS:
+            for body in (c, "a" + c + "b", c + c, c + "b", "a" + c, "a\\" + c + "b", "x" + c + "y" + c + "z"):
+                k += 1
+                yield q, body, LITERAL_CONTEXTS[0]
+                yield q, body, LITERAL_CONTEXTS[1 + k % (len(LITERAL_CONTEXTS) - 1)]
+
+
 QUOTES = "\"'"
 # where a string literal can stand: statement value, list entry, dict key, dict value, call argument
 LITERAL_CONTEXTS = ['RETURN = %s;', 'RETURN = [%s];', 'RETURN = [1, %s, 2];', 'RETURN = {%s: 1};', 'RETURN = {"k": %s};',
@@ -258,8 +290,10 @@ def random_literal(rng):
         elif r < 0.55:
             parts.append("\\" + rng.choice(ESCAPE_HEADS)
                          + "".join(rng.choice("0123456789abcdefABCDEFgz{} ") for _ in range(rng.randrange(0, 9))))
-        elif r < 0.60:
+        elif r < 0.58:
             parts.append(rng.choice(OPAQUE_NON_ASCII))
+        elif r < 0.62:
+            parts.append(rng.choice(SPECIAL_CHARS))
         elif r < 0.70:
             parts.append(rng.choice("%{}$&#@~^`<>") + rng.choice([t for t in DIRECTIVE_TAILS if t is not None]))
         elif r < 0.75:
@@ -267,7 +301,10 @@ def random_literal(rng):
         else:
             parts.append(chr(rng.randrange(128)))
     body = "".join(parts)
-    return q, body, (q if rng.random() < 0.9 else "")
+    close = q if rng.random() < 0.9 else ""
+    if not close:       # left open: white space beyond ASCII (str.strip's, not the model's) could end up at a statement's edge
+        body = "".join(c for c in body if ord(c) < 128 or not c.isspace())
+    return q, body, close
 
 
 def random_literal_text(rng):
@@ -361,29 +398,46 @@ def session_corpus():
 
 def random_session(rng, noise, tag):
     """A seeded random walk: create / delete / bucket query (any shape, any datastore) / a query from the other
-    streams (mostly failing ones) in between."""
+    streams (mostly failing ones) in between.  A2 is a second Datastore object over A's store, M2 one over the
+    first datastore's, S / S2 (every third walk) two connections to one sqlite file: what exists is a matter of the
+    STORE.  A tenth of the queries is asked under a random query period."""
     ids = ["%s-one" % tag, "%s-two" % tag, "%s-3" % tag]
-    have = {"main": set(), "A": set(), "B": set()}
-    ops = list(SESSION_DS)
+    store = {"main": "main", "M2": "main", "A": "A", "A2": "A", "B": "B"}
+    ops = list(SESSION_DS) + [["datastore", "A2", "memory", "A"], ["datastore", "M2", "memory", "main"]]
+    names = ["main", "A", "A", "A2", "A2", "M2", "B"]
+    if rng.random() < 0.34:
+        store.update({"S": "S", "S2": "S"})
+        ops += [["datastore", "S", "sqlite-file"], ["datastore", "S2", "sqlite-file", "S"]]
+        names += ["S", "S2", "S2"]
+    have = {k: set() for k in set(store.values())}
     for _ in range(rng.randrange(8, 28)):
-        ds = rng.choice(["main", "A", "A", "B"])
+        ds = rng.choice(names)
         b = rng.choice(ids)
         r = rng.random()
-        if r < 0.2:
-            if b in have[ds]:
+        if r < 0.25:
+            if b in have[store[ds]]:
                 ops.append(["delete", ds, b])
-                have[ds].discard(b)
+                have[store[ds]].discard(b)
             else:
                 ops.append(["create", ds, b, rng.choice([SESSION_EVENTS, SESSION_EVENTS[:1], []])])
-                have[ds].add(b)
+                have[store[ds]].add(b)
         elif r < 0.8:
-            ops.append(bq(ds, rng.choice(BUCKET_SHAPES), b, rng.choice(ids)))
+            op = bq(ds, rng.choice(BUCKET_SHAPES), b, rng.choice(ids))
+            if rng.random() < 0.1:
+                op = [op[0], op[1], op[2], {}, random_window(rng)]      # inside a body the period is the body's business
+            ops.append(op)
         else:
             text, want = rng.choice(noise)
-            ops.append(["query", ds, text, {"class": want} if want else {}])
-    for ds in have:                    # leave every datastore as it was found
-        for b in sorted(have[ds]):
-            ops.append(["delete", ds, b])
+            op = ["query", ds, text, {"class": want} if want else {}]
+            if rng.random() < 0.2:
+                op.append(random_window(rng))
+            ops.append(op)
+    first = {}
+    for name in names:
+        first.setdefault(store[name], name)
+    for k in sorted(have):             # leave every store as it was found
+        for b in sorted(have[k]):
+            ops.append(["delete", first[k], b])
     return ops
 
 
@@ -408,6 +462,197 @@ def large_stream():
     events = [[i * 1000000, 500000, {"app": "a%d" % (i % 7)}] for i in range(BIG)]
     yield SESSION_DS + [["create", "B", "big", events], bq("B", BUCKET_SHAPES[1], "big"), bq("B", BUCKET_SHAPES[0], "big"),
                         bq("B", BUCKET_SHAPES[2], "big"), ["delete", "B", "big"], bq("B", BUCKET_SHAPES[1], "big")], True
+
+
+# -- interleavings, fault paths, environment, edge values --------------------------------------------------------
+
+# Two Datastore objects over ONE store: what one of them does to a bucket, the other one's queries must see at once
+# (the statement's "unknown bucket" is about the store as it is when the query runs, not about what the Datastore
+# object asked has seen).  (first object, second object over the same store)
+SHARED_PAIRS = [
+    ([["datastore", "A", "memory"], ["datastore", "A2", "memory", "A"]], "A", "A2"),
+    ([["datastore", "S", "sqlite-file"], ["datastore", "S2", "sqlite-file", "S"]], "S", "S2"),
+    ([["datastore", "M2", "memory", "main"]], "main", "M2"),
+]
+
+
+def shared_store_corpus():
+    k = 0
+    for s1 in BUCKET_SHAPES:
+        for dss, d1, d2 in SHARED_PAIRS:
+            k += 1
+            b = "v%d-x" % k
+            qa, qb = bq(d1, s1, b), bq(d2, s1, b)
+            ev = SESSION_EVENTS
+            yield "session-shared-store", dss + [
+                qa, qb,
+                # created and asked through one object, deleted through the other
+                ["create", d1, b, ev], qa, qb, qa, ["delete", d2, b], qa, qb,
+                # re-created through the other one (other content), deleted through the first
+                ["create", d2, b, ev[:1]], qa, qb, ["delete", d1, b], qb, qa,
+                # created through one object that never asks about it, deleted through the other
+                ["create", d1, b, []], ["delete", d2, b], qa, qb,
+                ["create", d2, b, ev[1:]], ["delete", d1, b], qb, qa,
+                # two ids, the objects crossing
+                ["create", d1, b, ev], ["create", d2, b + "2", []], bq(d1, BUCKET_SHAPES[-1], b, b + "2"),
+                bq(d2, BUCKET_SHAPES[-1], b + "2", b), ["delete", d2, b], ["delete", d1, b + "2"],
+                bq(d1, s1, b + "2"), bq(d2, BUCKET_SHAPES[-1], b, b + "2"), qa]
+
+
+# Query texts that are REJECTED, the reason sitting inside nested elements (what a rejected query leaves behind -
+# counters, locks, caches, half-built state - must not reach the next query).  Every placement below is a parse error
+# on the grammar's own terms; the interpret / function errors are the statement's classes.
+REJECT_OUTER = ['[1, %s]', 'echo(%s, 2)', '{"k": %s}', '[[%s]]', 'echo([{"a": %s}])']
+REJECT_INNER = ['[2, %s]', 'echo(%s)', '{"a": %s}', '[%s, 2]', 'echo(1, %s)']
+REJECT_PARSE = [')', '}', ':', '=', '\\', 'echo(1 2)', '{"a" 1}', '{1: 2}', '"abc', ',', '[1,, 2]', '{"a": }', 'echo(,)']
+REJECT_OTHER = [('zzz', "InterpretError"), ('nop(1)', "InterpretError"), ('no_such_function()', "InterpretError"),
+                ('concat("s", [])', "FunctionError"), ('query_bucket("no-such-bucket")', "FunctionError"),
+                ('limit_events([], "s")', "FunctionError")]
+
+
+def rejection_block(n, offset=0):
+    """n distinct rejected texts (query ops on the first datastore) with the class the statement names."""
+    cores = [(c, "ParseError") for c in REJECT_PARSE] * 2 + REJECT_OTHER
+    out = []
+    for i in range(offset, offset + n):
+        core, want = cores[i % len(cores)]
+        w, inner = REJECT_OUTER[(i // 3) % len(REJECT_OUTER)], REJECT_INNER[(i // 7) % len(REJECT_INNER)]
+        nested = w % (inner % core)
+        if i % 4 == 3:
+            nested = w % (inner % nested)           # one level deeper
+        text = ["RETURN = %s;", "x = 1; RETURN = %s;", "y = %s; RETURN = y;"][i % 3] % nested
+        out.append(["query", "main", text, {"class": want}])
+    return out
+
+
+AFTER_REJECTIONS = [
+    ("RETURN = [1, [2, [3]]];", "value"), ('RETURN = echo([1], {"a": [2, {"b": []}]});', "value"), ("RETURN = nop();", "value"),
+    ('x = {"k": [1, "s"]}; RETURN = echo(x, [x]);', "value"), ("RETURN = limit_events([1, [2], 3], 2);", "value"),
+    ("RETURN = [zzz];", "InterpretError"), ("RETURN = [nop(1)];", "InterpretError"), ("RETURN = [concat(1, 2)];", "FunctionError"),
+    ('RETURN = {"k": [query_bucket("no-such-bucket")]};', "FunctionError"), ("RETURN = [1, }];", "ParseError"), ("RETURN = 1;", "value"),
+]
+
+
+def rejections_corpus():
+    """Long runs of rejected queries, then texts of every class - three times over, the runs differing."""
+    ops = []
+    for burst in range(3):
+        ops.append(["repeat", 8, rejection_block(40, 40 * burst)])
+        ops += [["query", "main", t, {"class": w}] for t, w in AFTER_REJECTIONS]
+    yield "session-after-rejections", ops
+
+
+# The query period is an argument of aw_query.query like the text; every pair of datetime values is a legal one.
+WINDOWS = [
+    ["0001-01-01T00:00:00", "9999-12-31T23:59:59.999999"],                  # naive datetime.min / datetime.max
+    ["0001-01-01T12:00:00", "9999-12-31T06:00:00"],                          # naive, within a day of either end
+    ["0001-01-01T00:00:00+00:00", "9999-12-31T23:59:59.999999+00:00"],      # the same, aware
+    ["0001-01-01T00:00:00+02:00", "9999-12-31T23:59:00-05:00"],              # aware; the UTC equivalents leave year 1..9999
+    ["0001-01-01T00:00:00+23:59", "9999-12-31T23:59:59.999999-23:59"],
+    ["0001-01-01T00:00:00-12:00", "9999-12-31T23:59:59+14:00"],              # aware; the UTC equivalents stay inside
+    ["2020-01-01T00:00:00", "2020-01-02T00:00:00"],                          # naive, ordinary
+    ["2020-03-29T02:30:00", "2020-10-25T02:30:00"],                          # naive: in the DST gap / fold of the checks' zone
+    ["2020-01-01T00:00:00+05:30", "2020-01-02T00:00:00-03:30"],
+    ["2020-01-01T00:00:00.000001+00:00:01", "2020-01-02T00:00:00+01:02:03.5"],    # offsets with seconds
+    ["2020-01-02T00:00:00+00:00", "2020-01-01T00:00:00+00:00"],              # the end before the start
+    ["1970-01-01T00:00:00+00:00", "1969-12-31T23:59:59.999999+00:00"],
+    ["1900-01-01T00:00:00", "2038-01-19T03:14:08"],                          # outside a 32-bit time_t
+    ["2262-04-11T23:47:16.854776+00:00", "2262-04-11T23:47:16.854776+00:00"],     # start = end; beyond int64 nanoseconds
+    ["2020-01-01T00:00:00", "2020-01-02T00:00:00+00:00"],                    # one edge naive, the other aware
+    ["2020-01-01T00:00:00-08:00", "2020-01-02T00:00:00"],
+]
+# a text of every class + what shows the period to the query (compared with the model: STARTTIME / ENDTIME are the
+# isoformat() of the values handed in)
+WINDOW_TEXTS = [
+    ("RETURN = [NAME, STARTTIME, ENDTIME];", "value"), ("RETURN = echo(STARTTIME, [ENDTIME]);", "value"), ("RETURN = 1;", "value"),
+    ('x = [1, "s"]; RETURN = echo(x, nop(), {"k": x});', "value"), ("RETURN = limit_events([1, 2, 3], 2);", "value"),
+    ("a=", "ParseError"), ("RETURN", "ParseError"), ('RETURN = "abc', "ParseError"), ("RETURN = [1, }];", "ParseError"), ("x = 1;", "ParseError"),
+    ("RETURN = zzz;", "InterpretError"), ("RETURN = zzz();", "InterpretError"), ("RETURN = nop(1);", "InterpretError"),
+    ("RETURN = concat([]);", "InterpretError"), ("RETURN = sort_by_duration(1);", "FunctionError"), ('RETURN = concat("s", []);', "FunctionError"),
+    ('RETURN = query_bucket("nope");', "FunctionError"), ('RETURN = query_bucket_eventcount("nope");', "FunctionError"),
+    ('RETURN = find_bucket("no-such-fragment");', "FunctionError"), ('RETURN = find_bucket("b");', "value"),
+    # inside a body the period is that body's business (the statement excuses what is raised there): outcome family only
+    ('RETURN = query_bucket("b1");', None), ('RETURN = query_bucket_eventcount("b1");', None),
+]
+
+
+def window_corpus():
+    for i, w in enumerate(WINDOWS):
+        for j, (text, want) in enumerate(WINDOW_TEXTS):
+            name = ["q-name", "", "n\u00e9", "a;b = (c"][(i + j) % 4]
+            yield "window", [["query", "main", text, {"class": want} if want else {}, [name] + w]]
+
+
+def random_window(rng):
+    def edge():
+        r = rng.random()
+        if r < 0.25:
+            return rng.choice(rng.choice(WINDOWS))
+        y = rng.choice([1, 1, 2, 1969, 1970, 2020, 2038, 9998, 9999, 9999, rng.randrange(1, 10000)])
+        t = "%04d-%02d-%02dT%02d:%02d:%02d" % (y, rng.choice([1, 12, rng.randrange(1, 13)]), rng.choice([1, 28, rng.randrange(1, 29)]),
+                                                rng.randrange(24), rng.randrange(60), rng.randrange(60))
+        if rng.random() < 0.4:
+            t += ".%06d" % rng.randrange(10 ** 6)
+        if rng.random() < 0.6:
+            t += rng.choice(["+00:00", "+02:00", "-05:00", "+14:00", "-12:00", "+23:59", "-23:59", "+05:45", "-00:01"])
+        return t
+    return [rng.choice(["q-name", "n2", ""]), edge(), edge()]
+
+
+# Process-level settings a host application may have made (harness/c17_impl.py `environment`).
+RECURSION_LIMIT = 400
+ENVS = [
+    {"logging": "DEBUG"}, {"logging": "INFO"}, {"recursionlimit": RECURSION_LIMIT}, {"warnings": "DeprecationWarning"},
+    {"warnings": "Warning"}, {"tz": "UTC0"}, {"tz": "<+14>-14"}, {"tz": "EST5EDT,M3.2.0,M11.1.0"}, {"int_digits": 640}, {"int_digits": 0},
+    {"logging": "DEBUG", "warnings": "Warning", "recursionlimit": RECURSION_LIMIT, "tz": "<-12>12"},
+]
+
+
+# nesting far above what the other streams write, still far below what any of the settings forbids
+DEEP_TEXTS = [("RETURN = " + "[" * 40 + "1" + "]" * 40 + ";", "value"), ("RETURN = " + "echo(" * 40 + "nop()" + ")" * 40 + ";", "value"),
+              ("RETURN = " + '{"k": [echo(' * 13 + "zzz" + ")]}" * 13 + ";", "InterpretError"),
+              ("x = " + "[" * 25 + '"s"' + "]" * 25 + "; RETURN = " + "echo([" * 12 + "x, concat(x, 1)" + "])" * 12 + ";", "FunctionError")]
+
+
+def env_corpus(impl, stride):
+    """Texts of every class under every setting: all seed programs, every stride-th text of the class stream (the
+    settings in rotation), and what the int-digit limit decides."""
+    for e in ENVS:
+        for t in SEEDS:         # well-formed programs: values, but for the one that names a bucket that does not exist
+            yield "environment", [["query", "main", t, {"class": "FunctionError" if '"nope"' in t else "value"}, None, {"env": e}]]
+        for t, want in AFTER_REJECTIONS + WINDOW_TEXTS[:20] + DEEP_TEXTS:
+            yield "environment", [["query", "main", t, {"class": want}, None, {"env": e}]]
+    for i, (cat, t, want) in enumerate(class_stream(impl)):
+        if i % stride == 0:
+            yield "environment", [["query", "main", t, {"class": want}, None, {"env": ENVS[(i // stride) % len(ENVS)]}]]
+    for digits, lim in ((641, 640), (640, 640), (5000, 0), (4301, 0)):
+        want = "value" if lim == 0 or digits <= lim else "ParseError"
+        for form in ("RETURN=%s", "RETURN=[1, %s]", "x=%s;RETURN=1"):
+            yield "environment", [["query", "main", form % ("7" * digits), {"class": want}, None, {"env": {"int_digits": lim}}]]
+
+
+def with_options(ops, n, rng=None):
+    """Part of the queries of every session run on worker threads that stay alive between their queries (a server's
+    pool), part of them under another process-level setting: query j of session n on worker w1 when (j + n) % 3 = 1,
+    on w2 when (j + n) % 7 = 3; settings every 5th query in rotation.  Queries against a sqlite store stay on the
+    main thread (sqlite3 connections refuse other threads); ops that carry options already are left alone."""
+    sqlite = {op[1] for op in ops if op[0] == "datastore" and op[2].startswith("sqlite")}
+    out, j = [], 0
+    for op in ops:
+        if op[0] == "query" and len(op) <= 5:
+            j += 1
+            opts = {}
+            if op[1] not in sqlite:
+                if (j + n) % 3 == 1:
+                    opts["thread"] = "w1"
+                elif (j + n) % 7 == 3:
+                    opts["thread"] = "w2"
+            if (j + 2 * n) % 5 == 0:
+                opts["env"] = ENVS[(j + n) % len(ENVS)] if rng is None else rng.choice(ENVS)
+            if opts:
+                op = op[:4] + [op[4] if len(op) > 4 else None, opts]
+        out.append(op)
+    return out
 
 
 FAMILY = ("ParseError", "InterpretError", "FunctionError")
@@ -470,12 +715,27 @@ def report_blackbox_streams(ck, impl, compared, skipped):
 def main(argv=None):
     ck = Check("C17", argv)
     try:
-        return run_check(ck)
+        rc = run_check(ck)
     except HarnessBroken as e:
         # the harness itself cannot work on this tree (unreadable specification, ...): a broken tie with a replay
         # file that names what no longer checks, like every other one
         ck.disagreement("harness", f"the harness cannot establish the tie on this tree: {e}", {"harness": str(e)})
-        return ck.finish(RULE)
+        rc = ck.finish(RULE)
+    leave(rc)
+    return rc
+
+
+HUNG = []       # worker threads that never came back from a query (shared with the C11 check)
+
+
+def leave(rc):
+    """A worker thread stuck in a query (and whatever it holds) must not keep the check's process alive: with one
+    around, the process ends here, verdict printed and evidence written."""
+    if HUNG:
+        sys.stdout.flush()
+        sys.stderr.flush()
+        import os
+        os._exit(rc)
 
 
 def run_check(ck):
@@ -515,6 +775,11 @@ def run_check(ck):
     for _ in range(2000 if quick else 150000):
         text, want = random_literal_text(ck.rng)
         cases.append(("random-literal", text, want))
+    for q, body, ctx in special_stream():
+        want = literal_expectation(q, body)
+        if want and ctx.startswith("RETURN = nop("):
+            want = "InterpretError"
+        cases.append(("string-special", ctx.replace("%s", q + body + q), want))
 
     wire, expect = [], []
     seen = set()
@@ -530,11 +795,20 @@ def run_check(ck):
         kind, payload = r["outcome"]
         outcome_key = "value" if kind == "value" else (payload if kind == "error" else kind)
         ck.count("outcome:" + str(outcome_key))
-        ck.note_case(text if session is None else [text, len(session)], nontrivial=any(c in text for c in "([{\"'"))
+        ck.note_case(text if session is None else [text, len(session), session[-1][4:]], nontrivial=any(c in text for c in "([{\"'"))
+        if r.get("thread"):
+            ck.count("thread:" + r["thread"])
+        if session is not None and len(session[-1]) > 5 and (session[-1][5] or {}).get("env"):
+            ck.count("env:" + ",".join(sorted(session[-1][5]["env"])))
         short = text if len(text) < 300 else text[:140] + f" ...({len(text)} characters)... " + text[-60:]
         replay = {"query": text, "observed": outcome_key, "stream": stream,
                   "call": "aw_query.query2.query('q-name', query, 2020-01-01Z, 2020-01-02Z, Datastore(MemoryStorage))"}
         if session is not None:
+            last = session[-1]
+            if len(last) > 4 and last[4]:
+                replay["call"] = f"aw_query.query2.query({last[4][0]!r}, query, {r['ctx'][1]}, {r['ctx'][2]}, datastore)"
+            if len(last) > 5 and last[5]:
+                replay["options"] = last[5]
             replay.update({"session": session, "buckets_existing": buckets,
                            "call": "the ops of `session` in order in ONE process, see harness/c17_session.py",
                            "rerun": "save this file's replay.session as {\"ops\": [...]} and run "
@@ -578,14 +852,19 @@ def run_check(ck):
         first_outcome[text] = (process(stream, text, want, impl.run(text)), want)
 
     # sessions: the same process, the same Datastore objects, histories between the queries
-    def run_session(stream, ops, through_model=True):
+    nsessions = [0]
+
+    def run_session(stream, ops, through_model=True, options=True):
+        nsessions[0] += 1
+        if options:
+            ops = with_options(ops, nsessions[0])
         sess = Session(impl)
-        for i, op in enumerate(ops):
+        for op, upto in unroll(ops):
             try:
                 out = sess.apply(op)
             except Exception as e:      # the datastore layer itself refuses a create / delete: not this property's claim,
                 ck.disagreement("session", f"op {op[:3]!r} of a session raised {type(e).__name__}: {e}",      # but no tie either
-                                {"session": ops[:i + 1], "stream": stream})
+                                {"session": upto, "stream": stream})
                 return
             if out is None:
                 ck.count("session-op:" + op[0])
@@ -594,16 +873,25 @@ def run_check(ck):
             if want is not None and want[0] != "class":
                 raise HarnessBroken("C17 sessions carry outcome classes only")
             if through_model:
-                process(stream, op[2], want[1] if want else None, r, have, ops[:i + 1])
+                process(stream, op[2], want[1] if want else None, r, have, upto)
             else:                       # too long for the extracted model's quadratic text handling: oracle only
                 n0 = len(wire)
-                process(stream, op[2], want[1] if want else None, r, have, ops[:i + 1])
+                process(stream, op[2], want[1] if want else None, r, have, upto)
                 del wire[n0:], expect[n0:]
                 ck.count("outside-model:longer than the driver is asked to scan")
+        HUNG[:] = impl.hung
 
     noise = [(t, w) for st, t, w in cases if st.startswith("class-") or st == "seed"]
     for stream, ops in session_corpus():
         run_session(stream, ops)
+    for stream, ops in shared_store_corpus():
+        run_session(stream, ops)
+    for stream, ops in rejections_corpus():
+        run_session(stream, ops)
+    for stream, ops in window_corpus():
+        run_session(stream, ops, options=False)
+    for stream, ops in env_corpus(impl, 4 if quick else 1):
+        run_session(stream, ops, options=False)
     for i in range(30 if quick else 1500):
         run_session("session-random", random_session(ck.rng, noise, "r%d" % i))
     texts = sorted(first_outcome)
@@ -611,7 +899,8 @@ def run_check(ck):
         out, want = first_outcome[text]
         run_session("session-asked-again", [["query", "main", text, {"class": want or out} if out in FAMILY + ("value",) else {}]])
     for ops, through_model in large_stream():
-        run_session("large", ops, through_model)
+        run_session("large", ops, through_model, options=False)
+    ck.coverage["worker_threads_that_never_came_back"] = list(impl.hung)
     if impl.buckets_of(impl.ds) != impl.buckets or sorted(impl.ds.buckets()) != impl.buckets:
         ck.disagreement("session", "the sessions did not leave the first datastore as they found it: "
                         f"{sorted(impl.ds.buckets())} / {impl.buckets}", {"buckets": sorted(impl.ds.buckets())})
